@@ -166,6 +166,14 @@ class HHSys(E1):
                         probs.append(
                             f"sketch {s}: hh[{q!r}] = {c} exceeds the true count {true.get(q, 0)}"
                         )
+                for q in self.alpha:
+                    if len(q) > self.L:  # identity = first max_key_len bytes
+                        c = self.lookup(sk, q)
+                        if c is not None and c > true.get(self.ident(q), 0):
+                            probs.append(
+                                f"sketch {s}: hh[{q!r}] = {c} exceeds the true count "
+                                f"{true.get(self.ident(q), 0)} of its identity {self.ident(q)!r}"
+                            )
             if self.mode == "c04":
                 probs += self.c04_lookup(sk, true, s)
         return probs
